@@ -181,3 +181,114 @@ Proof.
   split; [cbn; auto with arith|]. split; [discriminate|].
   repeat split; vm_compute; repeat (first [reflexivity | apply Qc_is_canon; reflexivity | f_equal]).
 Qed.
+
+(* ---- aggregation bridges (harness/mkprops_aggs.py): begin ---- *)
+(* The aggregation classes are the ones regenerated from the source under test on this run: Gen/KA_<class>.v is written by
+   harness/gen_aggs.py from the python AST of streamz/dataframe/aggregations.py (symbolic execution over an abstract pandas
+   interface, Base/AggPrims.v; the mapping of the pandas primitives is printed into every generated file).
+   Base/BridgeAggs.v (streaming Series: statistics are numbers) and Base/BridgeAggsVec.v (streaming DataFrame: one
+   statistic per column) prove that, with the interface instantiated by DF/Frames.v, they are the fields of the
+   aggregation records of DF/Agg.v, repaired variant.  f2o: a float result as option Qc (NaN and the infinities are None);
+   var_py: the model's extra state component "still the python ints of `initial`". *)
+From SZ Require Import Base.AggPrims Base.BridgeAggs Base.BridgeAggsVec.
+From SZ Require Gen.KA_Sum Gen.KA_Count Gen.KA_Size Gen.KA_Mean Gen.KA_Var Gen.KA_Accumulator.
+Theorem C06_bridge_Sum :
+  (* sum_on_new *)
+  (forall c acc new, Some (Gen.KA_Sum.gen_sum_on_new (frames_ops c) acc new) = Agg.on_new (sum_s c) acc new) /\
+  (* sum_on_old *)
+  (forall c acc old, Some (Gen.KA_Sum.gen_sum_on_old (frames_ops c) acc old) = Agg.on_old (sum_s c) acc old) /\
+  (* sum_initial *)
+  (forall c new, Gen.KA_Sum.gen_sum_initial (frames_ops c) new = Agg.initial (sum_s c) new) /\
+  (* sum_on_new_v *)
+  (forall cs acc new, Some (Gen.KA_Sum.gen_sum_on_new_v (frames_vops cs) acc new) = Agg.on_new (sum_v cs) acc new) /\
+  (* sum_on_old_v *)
+  (forall cs acc old, Some (Gen.KA_Sum.gen_sum_on_old_v (frames_vops cs) acc old) = Agg.on_old (sum_v cs) acc old) /\
+  (* sum_initial_v *)
+  (forall cs new, Gen.KA_Sum.gen_sum_initial_v (frames_vops cs) new = Agg.initial (sum_v cs) new).
+Proof. exact (conj bridge_sum_on_new (conj bridge_sum_on_old (conj bridge_sum_initial (conj bridge_sum_on_new_v (conj bridge_sum_on_old_v bridge_sum_initial_v))))). Qed.
+Print Assumptions C06_bridge_Sum.
+Theorem C06_bridge_Count :
+  (* count_on_new *)
+  (forall c acc new, Some (Gen.KA_Count.gen_count_on_new (frames_ops c) acc new) = Agg.on_new (count_s c) acc new) /\
+  (* count_on_old *)
+  (forall c acc old, Some (Gen.KA_Count.gen_count_on_old (frames_ops c) acc old) = Agg.on_old (count_s c) acc old) /\
+  (* count_initial *)
+  (forall c new, Gen.KA_Count.gen_count_initial (frames_ops c) new = Agg.initial (count_s c) new) /\
+  (* count_on_new_v *)
+  (forall cs acc new, Some (Gen.KA_Count.gen_count_on_new_v (frames_vops cs) acc new) = Agg.on_new (count_v cs) acc new) /\
+  (* count_on_old_v *)
+  (forall cs acc old, Some (Gen.KA_Count.gen_count_on_old_v (frames_vops cs) acc old) = Agg.on_old (count_v cs) acc old) /\
+  (* count_initial_v *)
+  (forall cs new, Gen.KA_Count.gen_count_initial_v (frames_vops cs) new = Agg.initial (count_v cs) new).
+Proof. exact (conj bridge_count_on_new (conj bridge_count_on_old (conj bridge_count_initial (conj bridge_count_on_new_v (conj bridge_count_on_old_v bridge_count_initial_v))))). Qed.
+Print Assumptions C06_bridge_Count.
+Theorem C06_bridge_Size :
+  (* size_on_new *)
+  (forall c acc new, Some (Gen.KA_Size.gen_size_on_new (frames_ops c) acc new) = Agg.on_new (size_s c) acc new) /\
+  (* size_on_old *)
+  (forall c acc old, Some (Gen.KA_Size.gen_size_on_old (frames_ops c) acc old) = Agg.on_old (size_s c) acc old) /\
+  (* size_initial *)
+  (forall c new, Gen.KA_Size.gen_size_initial (frames_ops c) new = Agg.initial (size_s c) new) /\
+  (* size_on_new_v *)
+  (forall cs acc new, Some (Gen.KA_Size.gen_size_on_new_v (frames_vops cs) acc new) = Agg.on_new (size_v cs) acc new) /\
+  (* size_on_old_v *)
+  (forall cs acc old, Some (Gen.KA_Size.gen_size_on_old_v (frames_vops cs) acc old) = Agg.on_old (size_v cs) acc old) /\
+  (* size_initial_v *)
+  (forall cs new, Gen.KA_Size.gen_size_initial_v (frames_vops cs) new = Agg.initial (size_v cs) new).
+Proof. exact (conj bridge_size_on_new (conj bridge_size_on_old (conj bridge_size_initial (conj bridge_size_on_new_v (conj bridge_size_on_old_v bridge_size_initial_v))))). Qed.
+Print Assumptions C06_bridge_Size.
+Theorem C06_bridge_Mean :
+  (* divide *)
+  (forall c totals counts, f2o (Gen.KA_Mean.gen_divide (frames_ops c) totals counts) = qdivz totals counts) /\
+  (* mean_on_new *)
+  (forall c acc new, Some (res_o (Gen.KA_Mean.gen_mean_on_new (frames_ops c) acc new)) = Agg.on_new (mean_s c repaired) acc new) /\
+  (* mean_on_old *)
+  (forall c acc old, Some (res_o (Gen.KA_Mean.gen_mean_on_old (frames_ops c) acc old)) = Agg.on_old (mean_s c repaired) acc old) /\
+  (* mean_initial *)
+  (forall c new, Gen.KA_Mean.gen_mean_initial (frames_ops c) new = Agg.initial (mean_s c repaired) new) /\
+  (* divide_v *)
+  (forall cs totals counts, map f2o (Gen.KA_Mean.gen_divide_v (frames_vops cs) totals counts) = zipw qdivz totals counts) /\
+  (* mean_on_new_v *)
+  (forall cs acc new, Some (res_vo (Gen.KA_Mean.gen_mean_on_new_v (frames_vops cs) acc new)) = Agg.on_new (mean_v cs) acc new) /\
+  (* mean_on_old_v *)
+  (forall cs acc old, Some (res_vo (Gen.KA_Mean.gen_mean_on_old_v (frames_vops cs) acc old)) = Agg.on_old (mean_v cs) acc old) /\
+  (* mean_initial_v *)
+  (forall cs new, Gen.KA_Mean.gen_mean_initial_v (frames_vops cs) new = Agg.initial (mean_v cs) new).
+Proof. exact (conj bridge_divide (conj bridge_mean_on_new (conj bridge_mean_on_old (conj bridge_mean_initial (conj bridge_divide_v (conj bridge_mean_on_new_v (conj bridge_mean_on_old_v bridge_mean_initial_v))))))). Qed.
+Print Assumptions C06_bridge_Mean.
+Theorem C06_bridge_Var :
+  (* var_compute_result *)
+  (forall c ddof x x2 n, f2o (Gen.KA_Var.gen_var_compute_result (frames_ops c) ddof x x2 n) = compute_result ddof x x2 n) /\
+  (* var_on_new *)
+  (forall c ddof x x2 n py new,
+   Some (let p := Gen.KA_Var.gen_var_on_new (frames_ops c) ddof (x, x2, n) new in ((fst p, var_py py new), f2o (snd p)))
+   = Agg.on_new (var_s c repaired ddof) (x, x2, n, py) new) /\
+  (* var_on_old *)
+  (forall c ddof x x2 n py old,
+   Some (let p := Gen.KA_Var.gen_var_on_old (frames_ops c) ddof (x, x2, n) old in ((fst p, var_py py old), f2o (snd p)))
+   = Agg.on_old (var_s c repaired ddof) (x, x2, n, py) old) /\
+  (* var_initial *)
+  (forall c ddof new, (Gen.KA_Var.gen_var_initial (frames_ops c) new, true) = Agg.initial (var_s c repaired ddof) new) /\
+  (* var_compute_result_v *)
+  (forall cs ddof x x2 n, map f2o (Gen.KA_Var.gen_var_compute_result_v (frames_vops cs) ddof x x2 n) = zipw3 (compute_result ddof) x x2 n) /\
+  (* var_on_new_v *)
+  (forall cs ddof acc new, Some (res_vo (Gen.KA_Var.gen_var_on_new_v (frames_vops cs) ddof acc new)) = Agg.on_new (var_v cs ddof) acc new) /\
+  (* var_on_old_v *)
+  (forall cs ddof acc old, Some (res_vo (Gen.KA_Var.gen_var_on_old_v (frames_vops cs) ddof acc old)) = Agg.on_old (var_v cs ddof) acc old) /\
+  (* var_initial_v *)
+  (forall cs ddof new, Gen.KA_Var.gen_var_initial_v (frames_vops cs) new = Agg.initial (var_v cs ddof) new).
+Proof. exact (conj bridge_var_compute_result (conj bridge_var_on_new (conj bridge_var_on_old (conj bridge_var_initial (conj bridge_var_compute_result_v (conj bridge_var_on_new_v (conj bridge_var_on_old_v bridge_var_initial_v))))))). Qed.
+Print Assumptions C06_bridge_Var.
+Theorem C06_bridge_accumulator :
+  (* accumulator *)
+  (forall (S R : Type) (agg : aggregation S R) (f : S -> frame -> S * R),
+   (forall s b, Agg.on_new agg s b = Some (f s b)) ->
+   forall acc new, Some (Gen.KA_Accumulator.gen_accumulator (Agg.initial agg) f acc new) = accumulator agg acc new).
+Proof. exact (@bridge_accumulator). Qed.
+Print Assumptions C06_bridge_accumulator.
+Theorem C06_bridge_diff :
+  (* diff_expanding *)
+  (forall c dfs new, Gen.KA_Accumulator.gen_diff_expanding (frames_ops c) dfs new = (if nonempty new then dfs ++ [new] else dfs, [])).
+Proof. exact bridge_diff_expanding. Qed.
+Print Assumptions C06_bridge_diff.
+(* ---- aggregation bridges (harness/mkprops_aggs.py): end ---- *)
